@@ -204,6 +204,16 @@ def check_case(ctx: Ctx, c: Dict[str, Any], k: int = 0) -> None:
                     bad("SampleImage[data+mask]", "the sampled all-ones mask is zero at target samples strictly inside the source field of view", form="data+mask", what="mask")
         o = guarded("SampleImage", lambda: sm(tc, data=d4), form="data")
         cmp_lin("SampleImage[data=]", o, form="data")
+        # unbatched points (..., X, D) and an unbatched image (C, ..., X)
+        o = guarded("SampleImage", lambda: sm(tc[0], d4), form="unbatched points")
+        cmp_lin("SampleImage[unbatched points]", o, form="unbatched points")
+        o = guarded("SampleImage", lambda: sm(tc, d4[0]), form="unbatched image")
+        if o is not None and o.ndim != d4.ndim - 1:
+            bad("SampleImage", f"an unbatched image (C, ..., X) comes back with shape {tuple(o.shape)}", form="unbatched image", what="shape")
+        cmp_lin("SampleImage[unbatched image]", o, form="unbatched image")
+        mo_only = guarded("SampleImage", lambda: sm(tc, mask=mk), form="mask only")
+        if mo_only is not None and (mo_only.dtype != torch.bool or bool((mo_only.reshape(tshape)[inhull & margin] == 0).any())):
+            bad("SampleImage", "mask= alone does not return the boolean sampled mask (true strictly inside the source field of view)", form="mask only")
     # (a corner-aligned target with ONE sample along an axis has a cube of zero extent along it: target points cannot be expressed in its cube
     #  coordinates, which is what align_centers and AlignImage work in - those forms are not judged on such targets, as for explicit CUBE_CORNERS axes)
     degenerate_t = gt.align_corners() and min(c["gt"]["n"]) == 1
